@@ -64,6 +64,7 @@ def check_case(ctx, case, enum=False):
     Q = rec.mul(d.c, dd, d.G)
     sig = SU.encode_ref(decn, r, s, n)
     ctx.ev()
+    ctx.case_sample(dict(case, r=r, s=s))
     try:
         if entry == "data":
             keys = VerifyingKey.from_public_key_recovery(sig, payload, d.lib, hashfunc=hf, sigdecode=DEC[decn],
